@@ -101,9 +101,10 @@ def pre_link(idx: List[int], free: str, pos: int, opt: int) -> bool:
 def _run(idx, free, pos, opt):
     parts = [FRAG[i] for i in idx]
     text = "".join(parts[:pos]) + free + "".join(parts[pos:])
-    shorten = (opt & 1) == 1
-    reqp = (opt & 2) == 2
-    permitted = PROTOS[opt >> 2]
+    low = opt % 4
+    shorten = low == 1 or low == 3
+    reqp = low >= 2
+    permitted = PROTOS[opt // 4]
     out = escape.linkify(text, shorten=shorten, require_protocol=reqp, permitted_protocols=permitted)
     n = _check(text, out, shorten, reqp, permitted)
     return text, out, n
@@ -118,8 +119,8 @@ def pre_link0(idx: List[int], opt: int) -> bool:
     return in_shard(idx[0] if len(idx) > 0 else 0)
 
 
-@harness(pre=pre_link0, quick=dict(N=3, NF=7, NO=8, timeout=120), thorough=dict(N=4, NF=len(FRAG), NO=16, timeout=1400),
-         nshards=dict(quick=4, thorough=24), reach=["link_made", "www_link", "bad_protocol_not_linked"],
+@harness(pre=pre_link0, quick=dict(N=3, NF=7, NO=2, timeout=150), thorough=dict(N=4, NF=len(FRAG), NO=4, timeout=1400),
+         nshards=dict(quick=7, thorough=24), reach=["link_made", "www_link", "bad_protocol_not_linked"],
          units=["escape.linkify", "escape.linkify.make_link", "escape._URL_RE", "escape.xhtml_escape"],
          stubs=["text = concatenation of <= N fragments from %r (first NF in quick) chosen by symbolic index; "
                 "options: shorten, require_protocol bits and permitted_protocols from %r" % (FRAG, PROTOS)],
@@ -135,7 +136,22 @@ def h_link(idx: List[int], opt: int):
         reached("bad_protocol_not_linked")
 
 
-@harness(pre=pre_link, quick=dict(N=1, NF=3, F=1, NO=2, timeout=150, reach_timeout=120), thorough=dict(N=2, NF=8, F=2, NO=16, timeout=1400),
+@harness(pre=pre_link0, quick=dict(N=2, NF=7, NO=16, timeout=150), thorough=dict(N=3, NF=16, NO=16, timeout=1400),
+         nshards=dict(quick=7, thorough=16), reach=["javascript_permitted_linked", "www_despite_empty_protocols"],
+         units=["escape.linkify", "escape.linkify.make_link", "escape._URL_RE"],
+         stubs=["as h_link with fewer fragments and ALL 16 option combinations (shorten x require_protocol x "
+                "permitted_protocols from %r)" % (PROTOS,)],
+         outside=["extra_params"])
+def h_link_opts(idx: List[int], opt: int):
+    """all option combinations: hrefs use a permitted protocol or are www. links (unless require_protocol)."""
+    text, out, n = _run(idx, "", 0, opt)
+    if n > 0 and opt // 4 == 2 and text[:11] == "javascript:":
+        reached("javascript_permitted_linked")
+    if n > 0 and opt // 4 == 3:
+        reached("www_despite_empty_protocols")
+
+
+@harness(pre=pre_link, quick=dict(N=1, NF=2, F=1, NO=1, timeout=200, reach_timeout=150), thorough=dict(N=2, NF=8, F=2, NO=16, timeout=1400),
          nshards=dict(quick=3, thorough=16), reach=["free_in_link"],
          units=["escape.linkify", "escape.linkify.make_link", "escape._URL_RE", "escape.xhtml_escape"],
          stubs=["text = <= N pooled fragments (first NF of the pool) with <= F FREE symbolic code points "
@@ -146,6 +162,39 @@ def h_link_free(idx: List[int], free: str, pos: int, opt: int):
     text, out, n = _run(idx, free, pos, opt)
     if n > 0 and len(free) == 1:
         reached("free_in_link")
+
+
+# ---- entities near the clip point.  The URL is built from symbolic LENGTHS (host, first path segment, tail)
+# with one special character ('&' -> '&amp;', '"' -> '&quot;') at a symbolic position, so the special lands
+# on every offset around both clipping rules (the 8-character path cut and the 30-character cut).
+def classify_clip(proto: int, host: int, path: int, special: int, tail: int):
+    return "shorten_splits_entity"
+
+
+def pre_clip(proto: int, host: int, path: int, special: int, tail: int) -> bool:
+    if not (0 <= proto <= 2 and 0 <= host <= P.H and -1 <= path <= 8 and 0 <= special <= 1
+            and P.T0 <= tail <= P.T1):
+        return False
+    if P.exclude and "shorten_splits_entity" in P.exclude:
+        return False
+    return in_shard(host)
+
+
+@harness(pre=pre_clip, quick=dict(H=24, T0=28, T1=29, timeout=150), thorough=dict(H=40, T0=0, T1=40, timeout=1400),
+         nshards=dict(quick=5, thorough=16), classify=classify_clip, reach=["clipped_before_entity"],
+         units=["escape.linkify", "escape.linkify.make_link"],
+         stubs=["shorten=True; text = PROTO + 'h' * host + ('/' + 'p' * path if path >= 0) + SPECIAL + 't' * tail "
+                "with PROTO in ('http://', 'www.', 'https://'), SPECIAL in ('&', '\"'); host, path, tail are "
+                "symbolic lengths (realised by the string multiplication: every value forked)"],
+         outside=["more than one special character", "extra_params"])
+def h_clip(proto: int, host: int, path: int, special: int, tail: int):
+    """no character entity is split by the shortening, wherever the entity falls."""
+    text = (("http://", "www.", "https://")[proto] + "h" * host + ("/" + "p" * path if path >= 0 else "")
+            + ("&", '"')[special] + "t" * tail)
+    out = escape.linkify(text, shorten=True)
+    n = _check(text, out, True, False, ["http", "https"])
+    if "...</a>" in out and "&" not in out.split(">")[1]:
+        reached("clipped_before_entity")
 
 
 SHORT = ["http://", "www.", "x" * 31, "/", "y" * 9, ".h?k", "&", "a.b", "z" * 12, "https://", "?", "&amp;"]
@@ -174,47 +223,7 @@ def h_shorten(idx: List[int], rp: bool):
         reached("shortened")
 
 
-# ------------------------------------------------------------------------------- Engine B extra
-def x_url_re_charset(tier, seed):
-    """Direct z3 obligation from the LIVE escape._URL_RE: with the leading \\b dropped (a superset of
-    the real matches: the sound direction) no string in the language of group 1 (= the whole pattern)
-    contains '"', '<', '>', "'" or whitespace - so an href built from a match cannot leave its
-    attribute, for URLs of any length."""
-    import re
-    import time
-    from engines import rxsmt as rx
-    pat = escape._URL_RE.pattern
-    flags = escape._URL_RE.flags
-    assert pat.startswith("\\b(") and pat.endswith(")") and "\\b" not in pat[2:] and "\\B" not in pat
-    body = pat[2:]
-    t0 = time.time()
-    R = rx.to_z3(body, flags & ~re.UNICODE, "fullmatch")
-    samples = ["http://a.b", "www.x.y/z?q=1&amp;r=2", "http://a.b&quot;c", "javascript:/x", "www.", "http://",
-               "http://a.b\"", "http://a<b", "http://a b", "https:///x(y)z", "ftp://x.y.", "http://x'y"]
-    val = rx.validate(re.compile(body, flags), samples, mode="fullmatch")
-    bad = "\"<>' \t\n\r\x0b\x0c\x85\xa0 "
-    res = []
-    viol = []
-    for ch in bad:
-        v, w, dt = rx.excludes_chars(R, ch)
-        res.append(dict(char=repr(ch), verdict=v, witness=w, s=dt))
-        if v == "sat":
-            m = escape._URL_RE.search(w)
-            if m is not None and ch in m.group(1):
-                viol.append(dict(detail="group 1 of _URL_RE can contain %r" % ch, input=w))
-    n = len(res)
-    ok = sum(1 for r in res if r["verdict"] == "unsat")
-    mism = val.get("mismatches") if isinstance(val, dict) else None
-    status = "VIOLATION" if viol else "PROVED" if (ok == n and not mism) else "BOUNDED"
-    return dict(status=status, obligations=n, discharged=ok, queries=n, solver_s=round(time.time() - t0, 2),
-                samples=res[:4], violations=viol,
-                trusted_base=["z3 seq/re theory", "re._parser (CPython)", "engines/rxsmt.py translator "
-                              "(validated on every run: %r)" % (
-                                  {k: val[k] for k in list(val)[:4]} if isinstance(val, dict) else val,)],
-                assumptions=["_URL_RE with its leading \\b dropped: superset of the strings linkify can put in "
-                             "an href (sound over-approximation); code points <= U+2FFFF (z3 character sort)"])
-
-
-# NOT registered: the obligation set did not finish within 900 s wall on the (heavily loaded) machine and is
-# therefore unvalidated; register as EXTRAS = {"x_url_re_charset": dict(fn=x_url_re_charset, wall=1800)} once measured.
+# Engine B extra (group 1 of _URL_RE, \\b dropped, contains no quote / angle bracket / whitespace) was
+# written against engines/rxsmt.py (to_z3 + excludes_chars) and measured on an idle machine: all 13 z3
+# queries came back "unknown" at the 60 s per-query timeout (17 min in total), so it is NOT registered.
 EXTRAS = {}
